@@ -49,6 +49,14 @@ PLAN = {
         "assumptions": ASSUME_X + ["peak live heap is measured per client thread by a counting global allocator in the harness", "an 'endless' construct is a 2-16 MiB one: the client must give up within the property's bound long before its end"],
         "replay_runner": "hostile", "replay_trace": "Trace_Hostile",
     },
+    "C06": {
+        "mc": [],
+        "families": [{"gen": ("tlc", {"name": "coding-table", "tla": "MC_Coding.tla", "cfg": "MC_Coding.cfg", "workers": 8}),
+                      "runner": "exchange", "trace": "Trace_Exchange", "attribute_all": True},
+                     fam("x_coded", attribute_all=True)],
+        "rule": "coding selection table enumerated by TLC (method x Content-Encoding tokens x Transfer-Encoding tokens x framing, any letter case, lists), each row a real exchange with the declared coding applied; streams: payload classes x levels 0..9 x gzip header options x framings x segmentations x read sizes; every truncation offset of small streams, boundary-biased of large; each of the 64 gzip trailer bits flipped",
+        "assumptions": ASSUME_X + ["deflate = raw RFC 1951 stream (what the repository's tests send)", "inflate itself is opaque: its output is compared with the known payload in the projection"],
+    },
     "C19": {
         "mc": [MC_EXCHANGE],
         "families": [fam("x_small"), fam("x_large")],
